@@ -11,18 +11,28 @@ package iam
 
 import (
 	"context"
+	stdcrypto "crypto"
+	"crypto/ecdsa"
+	"crypto/elliptic"
+	crand "crypto/rand"
+	"encoding/base64"
 	"encoding/json"
 	"errors"
 	"fmt"
 	"math/rand"
 	"net/http"
+	"net/http/httptest"
 	"os"
 	"sort"
 	"strings"
 	"time"
 
+	"github.com/labstack/echo/v4"
+	"github.com/lestrrat-go/jwx/v2/jwa"
+	"github.com/lestrrat-go/jwx/v2/jwt"
 	"github.com/nuts-foundation/go-did/vc"
 	"github.com/nuts-foundation/nuts-node/auth/oauth"
+	"github.com/nuts-foundation/nuts-node/crypto/dpop"
 	"github.com/nuts-foundation/nuts-node/storage"
 )
 
@@ -50,6 +60,16 @@ type c05Form struct {
 	State        *string    `json:"state,omitempty"`
 	Vp           *[]c05Pres `json:"vp,omitempty"`
 	UnknownState bool       `json:"unknownState,omitempty"`
+	// request object fetch ("reqobj"), landing page ("landing"), DPoP proof validation ("dpop")
+	ID       string `json:"id,omitempty"`
+	Subject  string `json:"subject,omitempty"`
+	Post     bool   `json:"post,omitempty"`
+	Token    string `json:"token,omitempty"`
+	Jti      string `json:"jti,omitempty"`
+	BadParse bool   `json:"badParse,omitempty"`
+	BadMatch bool   `json:"badMatch,omitempty"`
+	NoAth    bool   `json:"noAth,omitempty"`
+	BadAth   bool   `json:"badAth,omitempty"`
 }
 
 type c05FormsOp struct {
@@ -127,6 +147,31 @@ func c05VpToken(ps []c05Pres) string {
 	return "[" + strings.Join(raws, ",") + "]"
 }
 
+var c05FormsDPoPCache = map[string]c05DPoP{}
+
+// a correctly signed DPoP proof with the given jti; noAth: the ath claim is removed before signing
+func c05FormsDPoP(id string, noAth bool) c05DPoP {
+	if !noAth {
+		return c05SignedDPoP(id)
+	}
+	if d, ok := c05FormsDPoPCache[id]; ok {
+		return d
+	}
+	httpRequest, _ := http.NewRequest("POST", "https://server.example.com/token", nil)
+	p := dpop.New(*httpRequest)
+	_ = p.GenerateProof("token")
+	_ = p.Token.Set(jwt.JwtIDKey, id)
+	_ = p.Token.Remove(dpop.ATHKey)
+	keyPair, _ := ecdsa.GenerateKey(elliptic.P256(), crand.Reader)
+	if _, err := p.Sign("kid", keyPair, jwa.ES256); err != nil {
+		panic(err)
+	}
+	tp, _ := p.Headers.JWK().Thumbprint(stdcrypto.SHA256)
+	d := c05DPoP{proof: p.String(), thumbprint: base64.RawURLEncoding.EncodeToString(tp)}
+	c05FormsDPoPCache[id] = d
+	return d
+}
+
 const c05MultiSubmission = `{"id":"","definition_id":"","descriptor_map":[{"id":"1","path":"$[0]","format":"ldp_vp","path_nested":{"id":"1","path":"$.verifiableCredential","format":"ldp_vc"}}]}`
 
 func c05RunForms(w *storage.VerifC05Writer, base *Wrapper, op c05FormsOp) {
@@ -152,6 +197,16 @@ func c05RunForms(w *storage.VerifC05Writer, base *Wrapper, op c05FormsOp) {
 			err = wr.oauthNonceStore().Put(i.ID, i.Val)
 		case "s2s":
 			err = wr.s2sNonceStore().Put(i.ID, true)
+		case "jti":
+			err = wr.useNonceOnceStore().Put(i.ID, struct{}{})
+		case "reqobj": // val = subject|method
+			parts := strings.SplitN(i.Val, "|", 2)
+			u := wr.subjectToBaseURL(parts[0])
+			err = wr.authzRequestObjectStore().Put(i.ID, jarRequest{Claims: oauthParameters{"a": "b"}, Client: u.String(), RequestURIMethod: parts[1]})
+		case "redirect":
+			err = wr.userRedirectStore().Put(i.ID, RedirectSession{SubjectID: holderSubjectID, AccessTokenRequest: RequestUserAccessTokenRequestObject{
+				SubjectID: holderSubjectID, Body: &RequestUserAccessTokenJSONRequestBody{Scope: "first second", AuthorizationServer: "https://example.com/oauth2/verifier",
+					PreauthorizedUser: &UserDetails{Id: "test", Name: "John Doe", Role: "Caregiver"}}}})
 		}
 		if err != nil {
 			panic(err)
@@ -175,6 +230,69 @@ func c05RunForms(w *storage.VerifC05Writer, base *Wrapper, op c05FormsOp) {
 					res = fmt.Sprintf("panic:%v", r)
 				}
 			}()
+			switch f.T {
+			case "reqobj":
+				var err error
+				if f.Post {
+					_, err = wr.RequestJWTByPost(context.Background(), RequestJWTByPostRequestObject{SubjectID: f.Subject, Id: f.ID})
+				} else {
+					_, err = wr.RequestJWTByGet(context.Background(), RequestJWTByGetRequestObject{SubjectID: f.Subject, Id: f.ID})
+				}
+				return c05Ans(err, "")
+			case "landing":
+				rec := httptest.NewRecorder()
+				req := httptest.NewRequest(http.MethodGet, "/oauth2/holder/user", nil)
+				q := req.URL.Query()
+				q.Set("token", f.Token)
+				req.URL.RawQuery = q.Encode()
+				err := wr.handleUserLanding(echo.New().NewContext(req, rec))
+				if err == nil && rec.Code == http.StatusForbidden {
+					// the two refusals differ only in a debug log line: told apart by whether a token was sent
+					if f.Token == "" {
+						return "403|missing token"
+					}
+					return "403|token not found in store"
+				}
+				return "200" // accepted: it goes on to the user session (none here)
+			case "dpop":
+				d := c05FormsDPoP(f.Jti, f.NoAth)
+				body := &ValidateDPoPProofJSONRequestBody{DpopProof: d.proof, Method: "POST", Thumbprint: d.thumbprint, Token: "token", Url: "https://server.example.com/token"}
+				if f.BadParse {
+					body.DpopProof = "not-a-dpop-proof"
+				}
+				if f.BadMatch {
+					switch len(f.Jti) % 3 {
+					case 0:
+						body.Method = "GET"
+					case 1:
+						body.Url = "https://other.example.com/token"
+					default:
+						body.Thumbprint = "AAAA" + d.thumbprint[4:]
+					}
+				}
+				if f.BadAth {
+					body.Token = "another-token"
+				}
+				resp, err := wr.ValidateDPoPProof(nil, ValidateDPoPProofRequestObject{Body: body})
+				if err != nil {
+					return c05Ans(err, "")
+				}
+				v := resp.(ValidateDPoPProof200JSONResponse)
+				if v.Valid {
+					return "200"
+				}
+				reason := ""
+				if v.Reason != nil {
+					reason = *v.Reason
+				}
+				switch {
+				case strings.HasPrefix(reason, "failed to parse DPoP header"):
+					return "invalid|failed to parse DPoP header"
+				case reason == "missing ath claim", reason == "ath/token claim mismatch", reason == "jti already used":
+					return "invalid|" + c05DescHead(reason)
+				}
+				return "invalid|mismatch"
+			}
 			if f.T == "response" {
 				body := &HandleAuthorizeResponseFormdataRequestBody{State: f.State}
 				if f.Vp != nil {
@@ -232,7 +350,8 @@ func c05RunForms(w *storage.VerifC05Writer, base *Wrapper, op c05FormsOp) {
 	}
 	var live []string
 	for _, k := range b.Keys() {
-		for prefix, kind := range map[string]string{"oauth/code/": "code/", "oauth/nonce/": "vpnonce/", "s2s/nonce/": "s2s/"} {
+		for prefix, kind := range map[string]string{"oauth/code/": "code/", "oauth/nonce/": "vpnonce/", "s2s/nonce/": "s2s/",
+			"oauth/requestobject/": "reqobj/", "user/redirect/": "redirect/", "nonceonce/": "jti/"} {
 			if strings.HasPrefix(k, prefix) {
 				live = append(live, kind+strings.TrimPrefix(k, prefix))
 			}
@@ -295,13 +414,47 @@ func c05GenForms(rng *rand.Rand, idx int, backend string) c05FormsOp {
 	if rng.Intn(4) == 0 {
 		op.Init = append(op.Init, storage.VerifC05Init{Kind: "s2s", ID: c05Pick(rng, s2s...)})
 	}
+	for _, id := range []string{"r1", "r2"} {
+		if rng.Intn(3) > 0 {
+			op.Init = append(op.Init, storage.VerifC05Init{Kind: "reqobj", ID: id, Val: c05Pick(rng, "holderA", "holderA", "holderB") + "|" + c05Pick(rng, "get", "get", "post", "GET")})
+		}
+	}
+	for _, id := range []string{"t1", "t2"} {
+		if rng.Intn(3) > 0 {
+			op.Init = append(op.Init, storage.VerifC05Init{Kind: "redirect", ID: id, Val: ""})
+		}
+	}
+	if rng.Intn(4) == 0 {
+		op.Init = append(op.Init, storage.VerifC05Init{Kind: "jti", ID: c05Pick(rng, "j1", "j2"), Val: "{}"})
+	}
 	nreq := 3 + rng.Intn(4)
 	for k := 0; k < nreq; k++ {
 		f := c05Form{}
 		if backend == "redis" && rng.Intn(3) == 0 {
 			f.Dt = []int{1, 7, 14, 15, 16, 30, 59, 60, 61}[rng.Intn(9)]
 		}
-		switch x := rng.Intn(20); {
+		switch x := rng.Intn(29); {
+		case x >= 26: // landing page
+			f.T = "landing"
+			f.Token = c05Pick(rng, "t1", "t1", "t2", "t3", "", "redirect/t1")
+		case x >= 23: // request object fetch
+			f.T = "reqobj"
+			f.ID = c05Pick(rng, "r1", "r1", "r2", "r3", "")
+			f.Subject = c05Pick(rng, "holderA", "holderA", "holderA", "holderB")
+			f.Post = rng.Intn(3) == 0
+		case x >= 20: // DPoP proof validation
+			f.T = "dpop"
+			f.Jti = c05Pick(rng, "j1", "j1", "j2", "j3")
+			switch rng.Intn(10) {
+			case 0:
+				f.BadParse = true
+			case 1:
+				f.BadMatch = true
+			case 2:
+				f.NoAth = true
+			case 3:
+				f.BadAth = true
+			}
 		case x < 9: // authorization code grant (and near misses of the grant type)
 			f.T = "token"
 			f.Grant = "authorization_code"
@@ -361,6 +514,12 @@ func c05GenForms(rng *rand.Rand, idx int, backend string) c05FormsOp {
 			if f.T == "token" && f.Grant == "authorization_code" && f.Code != nil {
 				v, c := c05FormsPKCE.Verifier, "clientA"
 				op.Reqs = append(op.Reqs, c05Form{T: "token", Grant: "authorization_code", Code: f.Code, Verifier: &v, Client: &c})
+			} else if f.T == "reqobj" {
+				op.Reqs = append(op.Reqs, c05Form{T: "reqobj", ID: f.ID, Subject: "holderA"})
+			} else if f.T == "landing" || f.T == "dpop" {
+				g := f
+				g.Dt, g.BadParse, g.BadMatch, g.NoAth, g.BadAth = 0, false, false, false, false
+				op.Reqs = append(op.Reqs, g)
 			} else if f.T == "response" && f.Vp != nil {
 				for _, p := range *f.Vp {
 					if n := p.Challenge + p.Nonce + p.Jwt; n != "" && !p.Lderr && (p.Challenge == "" || p.Nonce == "") {
